@@ -279,6 +279,8 @@ class Check:
         """Rewrite coq/Generated/<unit>.v from the current /repo for each named unit."""
         import py2v
         import units as U
+        if unit_names:
+            self.selftest_py2v()       # the translator itself is re-validated whenever it changed (cached otherwise)
         with Lock(os.path.join(COQ, ".lock")):
             for name in unit_names:
                 unit = U.UNITS[name]
